@@ -244,7 +244,8 @@ func runC08(rc *RC) {
 			sb.WriteString("<!-- hi -->")
 		case k == 20:
 			term = "procinst"
-			sb.WriteString("<?target inst?>")
+			// any processing instruction, the XML declaration included (it belongs in front of a stream header, nowhere else)
+			sb.WriteString([]string{"<?target inst?>", "<?xml version='1.0'?>", `<?xml version="1.0" encoding="UTF-8"?>`, "<?xml-stylesheet href='x'?>"}[ch.Int("workload", 4)])
 		case k == 21:
 			term = "directive"
 			sb.WriteString("<!DOCTYPE x>")
